@@ -880,7 +880,21 @@ def c06_guardsym(R):
         for q, fn in m.functions.items():
             for cname in caches:
                 reads = [x for x in walk_no_nested(fn) if isinstance(x, ast.Subscript) and isinstance(x.ctx, ast.Load) and dotted(x.value) == cname]
-                writes = [st for st in walk_no_nested(fn) if isinstance(st, ast.Assign) and isinstance(st.targets[0], ast.Subscript) and dotted(st.targets[0].value) == cname]
+                reads += [
+                    x
+                    for x in walk_no_nested(fn)
+                    if isinstance(x, ast.Call) and isinstance(x.func, ast.Attribute) and x.func.attr == "get" and dotted(x.func.value) == cname
+                ]
+                writes = [
+                    st
+                    for st in walk_no_nested(fn)
+                    if isinstance(st, ast.Assign) and any(isinstance(t, ast.Subscript) and dotted(t.value) == cname for t in st.targets)
+                ]
+                writes += [
+                    x
+                    for x in walk_no_nested(fn)
+                    if isinstance(x, ast.Call) and isinstance(x.func, ast.Attribute) and x.func.attr == "setdefault" and dotted(x.func.value) == cname
+                ]
                 if not reads or not writes:
                     continue
                 for w in writes:
@@ -914,12 +928,15 @@ def c06_pyhash(R):
     fn = tree.func(BASE, "Base._arg_serialize")
     for c in _calls(fn):
         if dotted(c.func) == "hash":
+            held = [ast.unparse(t) for t, pol in guards.guards_of(c) if pol]
             R.bad(
                 m,
                 c,
-                "Base._arg_serialize falls back to Python's hash() for annotations and other objects: two "
-                "annotations whose hashes collide (e.g. bounds -1 and -2) serialize identically, so the two ASTs "
-                "get one structural hash and the second request returns the first object",
+                f"Base._arg_serialize serializes an argument through Python's hash() when {held}: two values whose "
+                "hashes collide (hash(-1) == hash(-2); integers modulo 2**61-1; annotation bounds -1 and -2) "
+                "serialize identically, so the two ASTs get one structural hash and the second request returns "
+                "the first object",
+                construct=f"{norm(c)} under {' and '.join(held)}",
             )
     if not any(dotted(c.func) == "hash" for c in _calls(fn)):
         R.ok(m, fn, "_arg_serialize does not use builtin hash()")
